@@ -243,8 +243,22 @@ fn part_b(ctx: &Ctx, head: &mut Report) {
         ("SELECT u.city, o.amount FROM users u JOIN orders o ON u.id = o.user_id", vec!["users", "orders"]),
         ("SELECT city FROM users UNION SELECT city FROM ref", vec!["users", "ref"]),
         ("SELECT zone, count(*) AS c FROM ref GROUP BY zone", vec!["ref"]),
+        // post-processing stacked on top of a DP aggregation (projection / filter / aggregate of the released
+        // values through a CTE or a derived table): the nodes above the mechanism only pass its output through
     ] {
         programs.push((sql.to_string(), t));
+    }
+    // the key columns of the post-processing programs are given by name (every other column derives from an aggregate)
+    let post: Vec<(&str, Vec<&'static str>, Vec<&str>)> = vec![
+        ("WITH s AS (SELECT city, sum(age) AS s FROM users GROUP BY city) SELECT city, s FROM s WHERE s > 10", vec!["users"], vec!["city"]),
+        ("SELECT max(c) AS m FROM (SELECT city, count(age) AS c FROM users GROUP BY city) AS t", vec!["users"], vec![]),
+        ("SELECT c + 1 AS c1 FROM (SELECT count(*) AS c FROM users) AS t", vec!["users"], vec![]),
+        ("WITH s AS (SELECT count(*) AS c, sum(age) AS a FROM users), t AS (SELECT c, a FROM s) SELECT a - c AS d FROM t", vec!["users"], vec![]),
+        ("SELECT t.city, t.s * 2 AS d FROM (SELECT u.city AS city, sum(o.amount) AS s FROM users u JOIN orders o ON u.id = o.user_id GROUP BY u.city) AS t WHERE t.s > 1", vec!["users", "orders"], vec!["city"]),
+    ];
+    let explicit_keys: BTreeMap<String, Vec<String>> = post.iter().map(|(s, _, k)| (s.to_string(), k.iter().map(|x| x.to_string()).collect())).collect();
+    for (sql, t, _) in &post {
+        programs.push((sql.to_string(), t.clone()));
     }
     struct Prog {
         sql: String,
@@ -275,7 +289,10 @@ fn part_b(ctx: &Ctx, head: &mut Report) {
             match r {
                 Ok(Ok(rel)) => {
                     let cols: Vec<String> = rel.schema().iter().map(|f| f.name().to_string()).collect();
-                    let keys = classify_columns(&sql, &cols);
+                    let keys = match explicit_keys.get(&sql) {
+                        Some(names) => cols.iter().map(|c| names.contains(c)).collect(),
+                        None => classify_columns(&sql, &cols),
+                    };
                     head.reach("accepted_by_sd_mode", sd);
                     head.reach("accepted_by_naming", naming);
                     progs.push(Prog { sql: sql.clone(), tables: tables.clone(), sd, naming, rewritten: Arc::new(rel), keys });
